@@ -1,3 +1,6 @@
+pub mod c08;
+pub mod c09;
+pub mod c17;
 pub mod checks;
 pub mod hsys;
 pub mod inv;
@@ -80,6 +83,15 @@ fn cmd_check(args: &[String]) -> i32 {
     }
     if prop == "C16" {
         checks::run_c16(tier, budget, &mut frag);
+    }
+    if prop == "C08" {
+        checks::run_c08(tier, budget, &mut frag);
+    }
+    if prop == "C17" {
+        checks::run_c17(tier, budget, &mut frag);
+    }
+    if prop == "C09" {
+        checks::run_c09(tier, budget, &mut frag);
     }
     checks::finish(&prop, tier, frag, t0.elapsed().as_secs_f64(), frag_path.as_deref())
 }
